@@ -199,8 +199,18 @@ func c25SubVectors(n, nt int, rich bool) [][]uint8 {
 
 func c25Blocks(thorough bool) ([]c25Block, string) {
 	maxN, richN, total, totalAtMax := 3, 3, 4, 4
+	conflictTopics, conflictTotal := 2, 3
 	if thorough {
 		maxN, richN, total, totalAtMax = 4, 3, 6, 4
+		conflictTotal = 4
+	}
+	plainSubs := func(subs []uint8) bool {
+		for _, s := range subs {
+			if s&(balenum.GhostBit|c25RegexBit) != 0 {
+				return false
+			}
+		}
+		return true
 	}
 	var out []c25Block
 	for n := 1; n <= maxN; n++ {
@@ -216,7 +226,12 @@ func c25Blocks(thorough bool) ([]c25Block, string) {
 					for _, ghost := range []bool{false, true} {
 						out = append(out, c25Block{"uniform", away, balenum.Block{Sweep: "kfake-uniform", N: n, Parts: parts, Subs: subs, Ghost: ghost, Prior: balenum.PriorSingle, Orders: 1}})
 					}
-					if os.Getenv("C25_KFAKE_CONFLICT") != "" {
+					// A previous target in which two members hold the same partition is
+					// reachable: a static member on leave (epoch -2) keeps its target while
+					// computeTargetAssignment hands its partitions to others, and the member
+					// replacing it inherits the old target (consumerJoin). Swept on a smaller
+					// space: nobody | one member | two conflicting members.
+					if away == -1 && len(parts) <= conflictTopics && int(parts[0])+int(parts[len(parts)-1])*(len(parts)-1) <= conflictTotal && (n <= 2 || plainSubs(subs)) {
 						out = append(out, c25Block{"uniform", away, balenum.Block{Sweep: "kfake-uniform-conflict", N: n, Parts: parts, Subs: subs, Prior: balenum.PriorConflict, Orders: 1}})
 					}
 					// range recomputes from scratch: previous target is irrelevant but
@@ -229,7 +244,7 @@ func c25Blocks(thorough bool) ([]c25Block, string) {
 			}
 		}
 	}
-	bound := fmt.Sprintf("members<=%d (one optionally on static-leave epoch -2), snapshot topics<=2 with 1..3 partitions and total<=%d (<=%d at %d members); per-member subscription: every subset of {ta,tb} x {with,without nonexistent tz} + regex (members<=%d; plain subsets above); previous target: partition -> nobody | one member, with/without stale topic-ID and out-of-range entries; range: dynamic and static(reversed) IDs", maxN, total, totalAtMax, maxN, richN)
+	bound := fmt.Sprintf("members<=%d (one optionally on static-leave epoch -2), snapshot topics<=2 with 1..3 partitions and total<=%d (<=%d at %d members); per-member subscription: every subset of {ta,tb} x {with,without nonexistent tz} + regex (members<=%d; plain subsets above); previous target: partition -> nobody | one member, with/without stale topic-ID and out-of-range entries, plus (total<=%d, no member on leave, plain subscriptions above 2 members) nobody | one | two conflicting members; range: dynamic and static(reversed) IDs", maxN, total, totalAtMax, maxN, richN, conflictTotal)
 	return out, bound
 }
 
